@@ -7,6 +7,7 @@ import (
 	"math"
 	"math/big"
 	"strings"
+	"time"
 	"unicode/utf8"
 
 	cedar "github.com/cedar-policy/cedar-go"
@@ -852,8 +853,9 @@ func ed2Family() *core.Family {
 
 func Check() *core.Check {
 	return &core.Check{
-		ID:    "C12",
-		Title: "Scalar and extension values have exact, canonical text forms",
+		ID:        "C12",
+		HangAfter: 120 * time.Second, // cases take at most seconds (max_case_s in the evidence); see core.Family.HangAfter
+		Title:     "Scalar and extension values have exact, canonical text forms",
 		Rule: "bounded-exhaustive: boundary grids of every scalar type (longs and decimals at +-2^k, +-10^k, limits, every decimal below 2.0; datetimes at every day boundary +-1 ms of selected years incl. year 0, leap centuries, the expanded-year switch and both limits; durations at every unit boundary; every IP prefix length), independently rendered literals judged by a reference calendar / big-int recogniser, every string within edit distance 1 of valid literals, constructor exactness at the multiples where products wrap, every Unicode scalar in entity ids; " +
 			"a case is non-trivial if the reference accepts the literal / the value is representable",
 		Assumptions: []string{
